@@ -610,3 +610,36 @@ func (w *World) ownerIn(f *ssa.Function, keys []string) string {
 	}
 	return ""
 }
+
+// addressTaken: f is used as a value somewhere in the package (method value, function value, closure
+// binding) — its callers are then not all visible as static calls.
+func (w *World) addressTaken(f *ssa.Function) bool {
+	for _, g := range w.Funcs {
+		for _, b := range g.Blocks {
+			for _, in := range b.Instrs {
+				var ops [16]*ssa.Value
+				for _, op := range in.Operands(ops[:0]) {
+					if op == nil || *op == nil {
+						continue
+					}
+					if fn, isF := (*op).(*ssa.Function); isF && fn == f {
+						if c, isC := in.(ssa.CallInstruction); isC && c.Common().Value == ssa.Value(f) && !c.Common().IsInvoke() {
+							// the callee position of a static call
+							used := false
+							for _, a := range c.Common().Args {
+								if a == ssa.Value(f) {
+									used = true
+								}
+							}
+							if !used {
+								continue
+							}
+						}
+						return true
+					}
+				}
+			}
+		}
+	}
+	return false
+}
